@@ -464,8 +464,23 @@ fn scenario_catchup(seed: u64, rep: &mut Report) {
         let net = Net::boot(seed, n, &stakes, 10_000, 500_000).await;
         net.run_for(start).await;
         net.isolate(victim, true);
-        // optionally a silent first sync target: another node is slow to answer the victim later
-        net.run_for(len).await;
+        // while the victim is away the others also commit client transactions: the blocks it has to
+        // fetch reference batches it does not have either (it misses consensus AND mempool traffic)
+        let with_payload = rng.gen_bool(0.7);
+        if with_payload {
+            let slices = 4;
+            for k in 0..slices {
+                let to = (victim + 1 + rng.gen_range(0, n - 1)) % n;
+                let mut tx: Vec<u8> = (0..rng.gen_range(20, 150)).map(|_| rng.gen()).collect();
+                tx[0] = 1;
+                tx[1..9].copy_from_slice(&(seed * 100 + k as u64).to_be_bytes());
+                net.send_tx(to, tx).await;
+                net.run_for(len / slices as u64).await;
+            }
+            rep.hit("catchup.with-payload");
+        } else {
+            net.run_for(len).await;
+        }
         let others: Vec<usize> = (0..n).filter(|i| *i != victim).collect();
         let ahead = others.iter().map(|i| net.committed_round(*i)).max().unwrap_or(0);
         net.isolate(victim, false);
@@ -474,10 +489,21 @@ fn scenario_catchup(seed: u64, rep: &mut Report) {
             let slow = others[rng.gen_range(0, others.len())];
             net.set_link(slow, victim, true, 700);
         }
-        net.run_for(20 * TIMEOUT_MS).await;
-        let v = net.committed_round(victim);
+        // Recovery has no deadline in the property; what bounds it in the code is the synchronizers'
+        // retry tick (5 s): a best-effort message sent on a connection that died during the partition
+        // is lost and only re-sent at the next tick, once per peer and per layer (blocks, batches).
+        // So: wait tick by tick, up to 30 ticks, until the victim has delivered what the others had
+        // delivered when it was reconnected.
+        let mut v = net.committed_round(victim);
+        let mut waited = 0;
+        while v < ahead && waited < 30 {
+            net.run_for(5_000).await;
+            waited += 1;
+            v = net.committed_round(victim);
+        }
+        rep.hit(&format!("catchup.ticks-needed.{}", waited.min(9)));
         if v < ahead {
-            rep.finding("impl_vs_property", "C07:no-catch-up", format!("n={} node {} was isolated for {} ms (others reached committed round {}), and 20 timeouts after reconnection it is still at committed round {}", n, victim, len, ahead, v), replay.clone());
+            rep.finding("impl_vs_property", "C07:no-catch-up", format!("n={} node {} was isolated for {} ms (others reached committed round {}), and {} retry ticks (5 s each) after reconnection it is still at committed round {}", n, victim, len, ahead, waited, v), replay.clone());
         }
         let live: Vec<usize> = (0..n).collect();
         check_logs(&net, &live, rep, &replay);
